@@ -72,6 +72,7 @@ def render_query(q):
     if f == "control_AG": return "control: A[] %s%s" % (p, sub)
     if f == "control_AF": return "control: A<> %s%s" % (r, sub)
     if f == "control_until": return "control: A[ %s U %s ]%s" % (p, r, sub)
+    if f == "control_buchi": return "control: A[] (%s %s A<> %s)%s" % (p, q["conj"], r, sub)
     if f == "ef_control": return "E<> control: A[] %s%s" % (p, sub)
     if f == "po_control": return "{ %s, P.v } control: A<> %s%s" % (p, r, sub)
     if f == "control_t2": return "control_t*(5,2): A<> %s" % r
@@ -92,6 +93,15 @@ def render_query(q):
     if f == "mitl_diamond": return "Pr (<>[0,5] %s)" % r
     if f == "mitl_box": return "Pr ([][0,5] %s)" % p
     raise ValueError(f)
+
+
+def wrapper(q):
+    """what a game query writes in front of its path formula; PropInfo::intermediate, the tree that is printed, is the path formula alone, and it is re-parsed
+    `in the same scope`: behind the same wrapper"""
+    f = q["form"]
+    if f in ("control_AG", "control_AF", "control_until", "control_buchi", "assign_control"): return "control: "
+    if f == "ef_control": return "E<> control: "
+    return ""            # `{..} control:` and `control_t*(..):` are nodes of the tree and are printed with it
 
 
 def strip(d):
@@ -125,7 +135,7 @@ def classify(c, rt, key_prefix, text, extra):
         return "bad"
     if st == "reparse-failed" and extra.get("kind") == "query" and extra["form"]["form"].startswith(("control", "ef_control", "po_control")) \
             and rt["second"].get("errors") == ["$Invalid_property_type"]:
-        return "skipped"      # PropInfo::intermediate of a game query is the path formula without its `control:` wrapper; not a query by itself
+        return "skipped"      # (kept for texts without a known wrapper) PropInfo::intermediate of a game query is the path formula without its `control:` wrapper; not a query by itself
     if st == "reparse-failed":
         c.finding("%s:reparse-failed:%s" % (key_prefix, sh), "`%s` prints as `%s`, which the same parser rejects: %s" % (text, rt.get("s1"), (rt["second"].get("errors") or rt["second"])), rep)
         return "bad"
@@ -172,7 +182,7 @@ def run(tier):
     items = [{"text": lx.render(e["src"]), "part": "S_EXPRESSION"} for e in univ] + [{"text": lx.render(e["srcfull"]), "part": "S_EXPRESSION"} for e in univ]
     per = 600
     jobs = [{"id": "e%d" % (k // per), "entry": "xml_buffer", "text": scaffold, "roundtrip": items[k:k + per], "structure": False} for k in range(0, len(items), per)]
-    qitems = [{"text": render_query(q), "query": True} for q in queries]
+    qitems = [{"text": render_query(q), "query": True, "reparse_prefix": wrapper(q)} for q in queries]
     jobs.append({"id": "q", "entry": "xml_buffer", "text": scaffold, "roundtrip": [{"text": "strategy S = control: A[] P.L1", "query": True}] + qitems, "structure": False})
     res = vf.run_jobs(jobs, c.run_dir, variant="plain", name="rt")
     for jid, r in res.items():
@@ -238,7 +248,7 @@ def replay(path):
     rec = json.load(open(path))["replay"]
     c = vf.Check("C03", "quick")
     model = rec.get("model") or {"decl": rec.get("decl", SCAFFOLD_DECL), "templates": [P_TEMPLATE], "system": "system P;"}
-    items = [{"text": "strategy S = control: A[] P.L1", "query": True}, {"text": rec["text"], "query": rec["kind"] == "query", "part": "S_EXPRESSION"}]
+    items = [{"text": "strategy S = control: A[] P.L1", "query": True}, {"text": rec["text"], "query": rec["kind"] == "query", "part": "S_EXPRESSION", "reparse_prefix": wrapper(rec["form"]) if rec.get("form") else ""}]
     r = vf.run_jobs([{"id": "r", "entry": "xml_buffer", "text": render_xml(model), "roundtrip": items, "structure": False}], c.run_dir, variant="plain")["r"]
     print(json.dumps(r["roundtrip"][1])[:2000])
     return 1
